@@ -54,6 +54,9 @@ func genC19(rng *rand.Rand, c *Case) {
 	c.Cfg["agreement"] = []int{0, 50, 4000, 33000, 60000}[rng.Intn(5)]
 	c.Cfg["late_delay"] = rng.Intn(120)
 	c.Cfg["late"] = rng.Intn(n) // number of clients that log in late (while others post/read)
+	// the operator reloads board and agreement from disk (SIGHUP / admin API) this many times while clients are busy
+	c.Cfg["reloads"] = rng.Intn(4) * rng.Intn(2)
+	c.Cfg["reload_delay"] = rng.Intn(150)
 	total := 0
 	for i := 0; i < n; i++ {
 		k := 1 + rng.Intn(6)
@@ -156,6 +159,21 @@ func runC19(w *World) {
 				}
 			}
 			Settle()
+		})
+	}
+	if cfg["reloads"] > 0 {
+		si := w.Srv
+		w.Sim.Go("operator", false, func() {
+			for k := 0; k < cfg["reloads"]; k++ {
+				Delay(10 + cfg["reload_delay"])
+				if err := si.Board.Reload(); err != nil {
+					w.Violate("c19-reload-fails", "message board reload: %v", err)
+				}
+				if err := si.Agree.Reload(); err != nil {
+					w.Violate("c19-reload-fails", "agreement reload: %v", err)
+				}
+				w.Probe("fault_operator_reload")
+			}
 		})
 	}
 	w.Sim.Run()
